@@ -198,7 +198,72 @@ fn expressions(tier: Tier) -> Vec<(String, String, &'static str)> {
             }
         }
     }
+    // every template once more with each grouping pair doubled: `(x)` -> `((x))`. Removing the
+    // outer pair must not lose what the inner pair protected (the context is re-derived per pair).
+    let mut doubled: Vec<(String, String, &'static str)> = Vec::new();
+    for (k, (family, expr, syntax)) in v.iter().enumerate() {
+        let _ = k;
+        if let Some(d) = double_parens(expr) {
+            let (root, rest) = family.split_once('.').unwrap_or((family.as_str(), ""));
+            doubled.push((format!("{root}2.{rest}"), d, syntax));
+        }
+    }
+    v.extend(doubled);
     v
+}
+
+/// Double every grouping parenthesis pair of a template expression (call parentheses untouched).
+fn double_parens(expr: &str) -> Option<String> {
+    let b: Vec<char> = expr.chars().collect();
+    let mut grouping_open: Vec<bool> = Vec::new(); // stack: is this open paren a grouping one
+    let mut out = String::new();
+    let mut changed = false;
+    let mut i = 0;
+    let mut in_str: Option<char> = None;
+    while i < b.len() {
+        let c = b[i];
+        if let Some(q) = in_str {
+            out.push(c);
+            if c == q {
+                in_str = None;
+            }
+            i += 1;
+            continue;
+        }
+        match c {
+            '"' | '\'' | '`' => {
+                in_str = Some(c);
+                out.push(c);
+            }
+            '(' => {
+                // previous significant text decides: after a name / `)` / `]` / `}` / string it is a call
+                let prev: String = out.trim_end().chars().rev().take_while(|ch| ch.is_alphanumeric() || *ch == '_').collect::<String>().chars().rev().collect();
+                let last = out.trim_end().chars().last();
+                let is_call = if !prev.is_empty() {
+                    !matches!(prev.as_str(), "and" | "or" | "not" | "then" | "else" | "elseif" | "if" | "return" | "in" | "until" | "while")
+                } else {
+                    matches!(last, Some(')') | Some(']') | Some('}') | Some('"') | Some('\''))
+                };
+                grouping_open.push(!is_call);
+                if is_call {
+                    out.push('(');
+                } else {
+                    out.push_str("((");
+                    changed = true;
+                }
+            }
+            ')' => {
+                if grouping_open.pop().unwrap_or(false) {
+                    out.push_str("))");
+                } else {
+                    out.push(')');
+                }
+            }
+            _ => out.push(c),
+        }
+        i += 1;
+    }
+    if changed { Some(out) } else { None }
 }
 
 const CHUNK: usize = 8;
